@@ -64,8 +64,13 @@ def canon_hash(obj) -> str:
 
 
 def _init_worker():
+    import gc
     import logging
 
+    # objects inherited from the parent (e.g. a DuckDB connection of a case the parent re-ran while shrinking a failure) must never be
+    # finalised in this process: their threads do not exist here and DuckDB's destructors crash or block (observed: workers dying
+    # with a segmentation fault while garbage-collecting, the pool then waiting for ever)
+    gc.freeze()
     logging.disable(logging.WARNING)
     import warnings
 
@@ -73,16 +78,24 @@ def _init_worker():
 
 
 def pmap(func, items, workers: int | None = None, chunksize: int = 1):
-    """Ordered parallel map in forked workers (each worker imports Splink/duckdb lazily)."""
+    """Ordered parallel map in forked workers (each worker imports Splink/duckdb lazily).  A worker that dies (a crash of native code)
+    ends the run with a HarnessError instead of leaving the pool waiting for its result for ever."""
+    import gc
+    from concurrent.futures import ProcessPoolExecutor
+    from concurrent.futures.process import BrokenProcessPool
+
     items = list(items)
     if not items:
         return []
     workers = workers or min(16, os.cpu_count() or 4)
     if workers <= 1 or len(items) == 1:
         return [func(x) for x in items]
-    ctx = mp.get_context("fork")
-    with ctx.Pool(workers, initializer=_init_worker) as pool:
-        return pool.map(func, items, chunksize=chunksize)
+    gc.collect()  # garbage of earlier in-process runs of the real code is finalised here, not inherited by the workers
+    with ProcessPoolExecutor(max_workers=workers, mp_context=mp.get_context("fork"), initializer=_init_worker) as ex:
+        try:
+            return list(ex.map(func, items, chunksize=chunksize))
+        except BrokenProcessPool as e:
+            raise HarnessError(f"a worker process of the parallel map died ({e}); {len(items)} items were in flight") from e
 
 
 class _Batch:
